@@ -1,5 +1,6 @@
 """C02 - range membership per ecosystem."""
 import json
+import re
 import os
 import random
 import subprocess
@@ -132,7 +133,7 @@ def mutate(rnd, s):
 def raw_stream(rep, rnd, n, seeds):
     st = Stream('raw', 'raw_case')
     send = []
-    specs = list(JUNK)
+    specs = list(JUNK) + ['~>1.2.3', '~=1.2.3', '~>=1.2.3', '^=1.2.3', '^v1.2.3']
     while len(specs) < n:
         specs.append(mutate(rnd, rnd.choice(seeds + JUNK)))
     for s in specs:
@@ -151,6 +152,13 @@ def raw_stream(rep, rnd, n, seeds):
             st.describe.append(lambda vi, inp=inp: inp)
             continue
         o = c['out']
+        # node-semver reads '~>', '~=', '~>=', '^=' (TILDE = ~>?[v=\s]*xrange, CARET = \^[v=\s]*xrange) as tilde / caret ranges: a spec of
+        # that shape over a full version is not malformed
+        if inp['eco'] == 'npm' and re.match(r'^(~>?|\^)[v=]*(0|[1-9]\d*)\.(0|[1-9]\d*)\.(0|[1-9]\d*)$', inp['spec']):
+            for k, v in enumerate(inp['versions']):
+                if re.match(r'^(0|[1-9]\d*)\.(0|[1-9]\d*)\.(0|[1-9]\d*)$', v) and o['compare_each'][k] == 3:
+                    rep.violation(f'raw: npm spec {inp["spec"]!r} is reported as malformed (node-semver accepts it)', {'stream': 'raw', 'input': inp, 'version': v, 'impl_compare': 3})
+                    break
         obs = '[' + '; '.join(C.g_pair(R.g_bytes(v), C.g_bool(o['exists_each'][k]), str(o['compare_each'][k])) for k, v in enumerate(inp['versions'])) + ']'
         st.terms.append(C.g_pair(str(ECO_CODE[inp['eco']]), R.g_bytes(inp['spec']), obs))
         st.describe.append(lambda vi, inp=inp, o=o: {'eco': inp['eco'], 'spec': inp['spec'], 'version': inp['versions'][vi] if 0 <= vi < len(inp['versions']) else None,
@@ -403,7 +411,8 @@ def run(tier, seed):
                     if c['out'] != st.outs[i]:
                         rep.violation(f'{other} matcher differs from npm on {st.inputs[i]["spec"]!r}', {'stream': other, 'input': st.inputs[i], 'npm': st.outs[i], other: c['out']})
                 rep.cov['streams'][other] = {'cases': len(cs), 'compared_with': 'npm'}
-    seeds = ['^1.2.3', '>=1.0.0 <2.0.0', '1.0.0 - 2.0.0', '^1 || ^2', '~1.2', '1.x', '>=1.2.3, <2', 'v1.2.3', 'v4', 'v2.0.0+incompatible']
+    seeds = ['^1.2.3', '>=1.0.0 <2.0.0', '1.0.0 - 2.0.0', '^1 || ^2', '~1.2', '1.x', '>=1.2.3, <2', 'v1.2.3', 'v4', 'v2.0.0+incompatible',
+             '~>1.2.3', '~=1.2.3', '~>=1.2.3', '^=1.2.3', '>=\t1.2.3', '^>1.0.0', '~<2.0.0 || ~>1.2.3']      # operator pile-ups node-semver reads as tilde / caret ranges
     st = raw_stream(rep, rnd, 300 if quick else 6000, seeds)
     eval_stream(rep, st, [('corr', 'raw_corr', True), ('oracle', 'gha_ref_oracle', False)], proofs_ok)
     total += sum(len(i['versions']) for i in st.inputs)
